@@ -295,6 +295,116 @@ func init() {
 		w.P("def smapOutgoingBidiField : Nat := %d", ob)
 		w.P("/-- … to already open outgoing unidirectional streams -/")
 		w.P("def smapOutgoingUniField : Nat := %d", ou)
+
+		// u_connection.go configCoveringAdvertised: how the receive windows enforced by a spec-driven client are
+		// derived from the Config and the transport parameters the spec advertises
+		uf, err := parser.ParseFile(c.Fset, filepath.Join(c.Repo, "u_connection.go"), nil, 0)
+		if err != nil {
+			return err
+		}
+		var cca *ast.FuncDecl
+		for _, d := range uf.Decls {
+			if fd, ok := d.(*ast.FuncDecl); ok && fd.Name.Name == "configCoveringAdvertised" {
+				cca = fd
+			}
+		}
+		if cca == nil || cca.Body == nil {
+			return fmt.Errorf("configCoveringAdvertised not found in u_connection.go")
+		}
+		fn := func(e ast.Expr) (string, []ast.Expr) { // f(args) or uint64(f(args))
+			ce, ok := e.(*ast.CallExpr)
+			if !ok {
+				return "", nil
+			}
+			if name := exprText(ce.Fun); (name == "uint64" || name == "protocol.ByteCount") && len(ce.Args) == 1 {
+				if inner, ok := ce.Args[0].(*ast.CallExpr); ok && (exprText(inner.Fun) == "max" || exprText(inner.Fun) == "min") {
+					return exprText(inner.Fun), inner.Args
+				}
+				return "id", ce.Args
+			}
+			return exprText(ce.Fun), ce.Args
+		}
+		type cover struct {
+			outer, inner string
+			fields     []int
+			self       bool
+			other      string
+		}
+		covers := map[string]cover{}
+		for _, st := range cca.Body.List {
+			as, ok := st.(*ast.AssignStmt)
+			if !ok || len(as.Lhs) != 1 || len(as.Rhs) != 1 {
+				continue
+			}
+			lhs := exprText(as.Lhs[0])
+			outer, args := fn(as.Rhs[0])
+			if !strings.HasPrefix(lhs, "c.") || len(args) != 2 {
+				continue
+			}
+			cv := cover{outer: outer, self: exprText(args[0]) == lhs}
+			inner, iargs := fn(args[1])
+			cv.inner = inner
+			if inner == "" {
+				cv.other = exprText(args[1])
+			}
+			for _, a := range iargs {
+				t := exprText(a)
+				switch {
+				case strings.HasSuffix(t, ".InitialMaxStreamDataBidiLocal"):
+					cv.fields = append(cv.fields, 0)
+				case strings.HasSuffix(t, ".InitialMaxStreamDataBidiRemote"):
+					cv.fields = append(cv.fields, 1)
+				case strings.HasSuffix(t, ".InitialMaxStreamDataUni"):
+					cv.fields = append(cv.fields, 2)
+				case strings.HasSuffix(t, ".InitialMaxData"):
+					cv.fields = append(cv.fields, 3)
+				}
+			}
+			covers[lhs] = cv
+		}
+		has := func(cv cover, want ...int) bool {
+			if len(cv.fields) != len(want) {
+				return false
+			}
+			seen := map[int]bool{}
+			for _, f := range cv.fields {
+				seen[f] = true
+			}
+			for _, x := range want {
+				if !seen[x] {
+					return false
+				}
+			}
+			return true
+		}
+		sw, cw := covers["c.InitialStreamReceiveWindow"], covers["c.InitialConnectionReceiveWindow"]
+		msw, mcw := covers["c.MaxStreamReceiveWindow"], covers["c.MaxConnectionReceiveWindow"]
+		if !sw.self || !cw.self || !has(sw, 0, 1, 2) || !has(cw, 3) || (sw.outer != "max" && sw.outer != "min") ||
+			(sw.inner != "max" && sw.inner != "min") || (cw.outer != "max" && cw.outer != "min") {
+			return fmt.Errorf("configCoveringAdvertised no longer has the shape `c.InitialStreamReceiveWindow = f(c.InitialStreamReceiveWindow, uint64(g(p.BidiLocal, p.BidiRemote, p.Uni)))`, `c.InitialConnectionReceiveWindow = f(c.InitialConnectionReceiveWindow, uint64(p.InitialMaxData))` (got %+v %+v)", sw, cw)
+		}
+		b := func(x bool) string { return fmt.Sprintf("%v", x) }
+		w.P("/-- u_connection.go `configCoveringAdvertised`: `c.InitialStreamReceiveWindow = OUTER(c.InitialStreamReceiveWindow,")
+		w.P("    uint64(INNER(p.InitialMaxStreamDataBidiLocal, p.InitialMaxStreamDataBidiRemote, p.InitialMaxStreamDataUni)))` — OUTER is `max` -/")
+		w.P("def coverStreamOuterIsMax : Bool := %s", b(sw.outer == "max"))
+		w.P("/-- … INNER is `max` -/")
+		w.P("def coverStreamInnerIsMax : Bool := %s", b(sw.inner == "max"))
+		w.P("/-- `c.InitialConnectionReceiveWindow = max(c.InitialConnectionReceiveWindow, uint64(p.InitialMaxData))` -/")
+		w.P("def coverConnIsMax : Bool := %s", b(cw.outer == "max"))
+		w.P("/-- `c.MaxStreamReceiveWindow = max(c.MaxStreamReceiveWindow, c.InitialStreamReceiveWindow)` and the same for the connection -/")
+		w.P("def coverMaxWindowsFollow : Bool := %s", b(msw.self && msw.outer == "max" && msw.other == "c.InitialStreamReceiveWindow" &&
+			mcw.self && mcw.outer == "max" && mcw.other == "c.InitialConnectionReceiveWindow"))
+		// newUClientConnection applies it to the parameters it advertises, before preSetup
+		applied := false
+		ast.Inspect(uf, func(n ast.Node) bool {
+			if as, ok := n.(*ast.AssignStmt); ok && len(as.Lhs) == 1 && len(as.Rhs) == 1 &&
+				exprText(as.Lhs[0]) == "s.config" && exprText(as.Rhs[0]) == "configCoveringAdvertised(s.config, params)" {
+				applied = true
+			}
+			return true
+		})
+		w.P("/-- `newUClientConnection` runs `s.config = configCoveringAdvertised(s.config, params)` on the parameters it advertises -/")
+		w.P("def coverAppliedInUClient : Bool := %s", b(applied))
 		return nil
 	})
 }
